@@ -20,6 +20,12 @@ claimed = {
          "Decides: every return of Compile is (fresh non-nil expression, nil) or (nil, error non-nil on that path); MustCompile's only panic is on Compile's failure edge, names the expression, and the normal return is unreachable from that edge; every SyntaxError literal takes Expression from the stored input (stored before any call) and Offset from len(expression)/cursor-1/a token position; the caret string is Expression + newline + Offset spaces + caret; no parser function returns (empty node, nil); the lexer dispatch cannot panic for any rune. Not decided: 0 <= Offset <= len numerically.", "§4 C17"),
  "C19": ("static analysis: dominance/provenance rules on cmd/jpgo's run() and main() + error-discipline dataflow",
          "Decides: status 0 outside -ast is returned only after Parse, a whole-input read, json.Unmarshal, jmespath.Search(expression, decoded input) and json.Marshal* succeeded and exactly one plain stdout print of that serialised result (never as a format string); no other stdout write outside -ast; every failure edge returns non-zero; main is os.Exit(run()). Trusts flag/os/fmt/encoding/json.", "§4 C19"),
+ "C06": ("static analysis: whole-library allocation-site points-to / mod analysis (Andersen-style, field-sensitive heap objects, resolved through the function table and sort adapters) + ban rules",
+         "Decides: no write instruction (store, map update, append into spare capacity, copy, delete, in-place sort, modelled library write) in any function reachable from Search/(*JMESPath).Search - in every handler and argument position, on success and error paths alike - may target memory reachable from the document; no reflect.Set*/unsafe. This is the property itself up to the soundness of the abstraction and the tabulated standard-library models.", "§4 C06"),
+ "C12": ("static analysis: mod analysis (Own) restricted to shared objects + ban rules (no goroutines/sync/global writes) + constructor freshness",
+         "Decides the structural argument for race freedom: the library starts no goroutines and has no synchronisation to get wrong; no package-level variable is written outside initialisation; every write reachable from (*JMESPath).Search / Search targets only objects allocated in that activation - never anything reachable from the compiled expression (AST, literal payloads, interpreter, function table), package-level state or the document; constructors return fresh objects. Two calls therefore share only memory nobody writes. Trusts runtime/reflect/encoding/json/sort.", "§4 C12"),
+ "C13": ("static analysis: mod analysis (Own) on the receiver + must-store-before-read rule on Parser/Lexer fields + API skeleton provenance + map-order rule + ban rules",
+         "Decides: Search writes nothing reachable from the compiled expression (so it is identical before and after any call, failing or not); Parse stores every Parser field before any method reads it and tokenizes with a Lexer that is fresh (or whose every read field is reset); Search(expr,d) and Compile(expr).Search(d) evaluate Execute(fresh interpreter, Parse(fresh parser, expr), d) alike; no clock/randomness/environment; Go map order can only show through keys(), values() and the object wildcard.", "§4 C13"),
 }
 na = {
  "C08": "piecewise integer arithmetic over all of Z^3 with machine overflow: not visible in the shape of the code; its structural clauses (non-array => null, zero step => error) are decided under C01/C11 (DESIGN §6)",
